@@ -40,7 +40,7 @@ import (
 
 func init() {
 	evid.Register(&evid.Check{ID: "C19", Level: "model_checking", Run: run,
-		QuickBudget: 80 * time.Second, ThoroughBudget: 14 * time.Minute})
+		QuickBudget: 240 * time.Second, ThoroughBudget: 14 * time.Minute})
 }
 
 // ---------------------------------------------------------------------------------------------
@@ -49,6 +49,7 @@ func init() {
 type checker struct {
 	r       *evid.Run
 	scratch string
+	fds     *fdGuard
 
 	statesMu sync.Mutex
 	states   map[uint64]struct{}
@@ -63,6 +64,7 @@ type checker struct {
 	chNoLeakEnv, chNoLeakNetrc                                            atomic.Int64
 	e2eRuns, e2eRejected, e2eHeader, e2eNoHeader, e2eEnvWins, e2eNetrc    atomic.Int64
 	e2eNoLeak                                                             atomic.Int64
+	fSchedules, fOverlapDifferentTokens                                   atomic.Int64
 }
 
 func (c *checker) addStates(keys []string) {
@@ -93,6 +95,7 @@ type Case struct {
 	Got         string   `json:"got_token"`
 	Detail      string   `json:"detail,omitempty"`
 	Sent        []string `json:"sent,omitempty"`
+	Schedule    string   `json:"schedule,omitempty"` // phase F: config variant, thread hosts and step order
 }
 
 // ---------------------------------------------------------------------------------------------
@@ -504,6 +507,7 @@ func (c *checker) netrcSpace() {
 	hosts := []string{H1, H2, H3, "", "r.i", "io", "r.io:443", "xxr.io", "default", "machine"}
 	r.ParallelFor(len(files), 0, func(i int) {
 		f := files[i]
+		c.fds.opened(r, len(hosts))
 		container := app.NewEnvContainer(f.env)
 		p := bufconnect.NewNetrcTokenProvider(container, netrc.GetMachineForName)
 		if len(f.entries) > 0 {
@@ -587,9 +591,10 @@ func scanLeaks(req *http.Request) []string {
 			}
 		}
 	}
+	url := req.URL.String()
 	for _, s := range secrets {
-		if strings.Contains(req.URL.String(), s) {
-			leaks = append(leaks, "url: "+req.URL.String())
+		if strings.Contains(url, s) {
+			leaks = append(leaks, "url: "+url)
 		}
 	}
 	return leaks
@@ -600,17 +605,25 @@ func (rc *recorder) Do(req *http.Request) (*http.Response, error) {
 		_, _ = io.Copy(io.Discard, req.Body)
 		_ = req.Body.Close()
 	}
-	h := hit{URLHost: req.URL.Host, Host: req.Host, Auth: append([]string(nil), req.Header.Values("Authorization")...), Leaks: scanLeaks(req)}
+	h := snapshotRequest(req)
 	rc.mu.Lock()
 	rc.hits = append(rc.hits, h)
 	rc.mu.Unlock()
+	return okResponse(req), nil
+}
+
+func snapshotRequest(req *http.Request) hit {
+	return hit{URLHost: req.URL.Host, Host: req.Host, Auth: append([]string(nil), req.Header.Values("Authorization")...), Leaks: scanLeaks(req)}
+}
+
+func okResponse(req *http.Request) *http.Response {
 	return &http.Response{
 		Status: "200 OK", StatusCode: 200, Proto: "HTTP/1.1", ProtoMajor: 1, ProtoMinor: 1,
 		Header:        http.Header{"Content-Type": []string{"application/proto"}},
 		Body:          io.NopCloser(bytes.NewReader(currentUserResponse)),
 		ContentLength: int64(len(currentUserResponse)),
 		Request:       req,
-	}, nil
+	}
 }
 
 func (rc *recorder) take() []hit {
@@ -671,11 +684,11 @@ func contains(xs []string, x string) bool {
 }
 
 // checkHit compares one recorded request with the model. It returns the bare token that was sent.
-func (c *checker) checkHit(phase, sigPrefix, s, netrcText string, cfg Config, entries []NEntry, q, urlHostWant string, hits []hit) {
+func (c *checker) checkHit(phase, sigPrefix, s, netrcText string, cfg Config, entries []NEntry, q, urlHostWant string, hits []hit, schedule string) {
 	r := c.r
 	model := cfg.Canon() + " " + NCanon(entries)
 	mk := func(want, got, detail string) Case {
-		return Case{Phase: phase, BufToken: s, Netrc: netrcText, RequestHost: q, Model: model, Want: want, Got: got, Detail: detail}
+		return Case{Phase: phase, BufToken: s, Netrc: netrcText, RequestHost: q, Model: model, Want: want, Got: got, Detail: detail, Schedule: schedule}
 	}
 	want, source := chainWant(cfg, entries, q)
 	if len(hits) != 1 {
@@ -750,6 +763,7 @@ func (c *checker) chainSpace(k int, allPerms bool) {
 			r.Distinct(fmt.Sprintf("D:%s|%s", s, NCanon(f.entries)))
 		}
 		netrcProvider := bufconnect.NewNetrcTokenProvider(container, netrc.GetMachineForName)
+		c.fds.opened(r, 18)
 		rec := &recorder{}
 		config := connectclient.NewConfig(rec,
 			connectclient.WithAddressMapper(func(a string) string { return "https://" + a }),
@@ -774,7 +788,7 @@ func (c *checker) chainSpace(k int, allPerms bool) {
 					r.Incomplete(fmt.Sprintf("phase D: in-process call failed: %v", err))
 					return
 				}
-				c.checkHit("D", "chain", s, f.text, cfg, f.entries, q, q, hits)
+				c.checkHit("D", "chain", s, f.text, cfg, f.entries, q, q, hits, "")
 				c.lookup(1)
 				envTok, netrcTok := cfg.Lookup(q), NLookup(f.entries, q)
 				switch {
@@ -967,7 +981,7 @@ func (c *checker) e2eSpace(k, netrcLen int) {
 					r.Violate("e2e/request-sent-to-other-host", fmt.Sprintf("whoami for registry {%d} sent %d requests to registry {%d} (Authorization %q)", hi+1, len(all[j]), j+1, all[j][0].Auth), mk(""))
 				}
 			}
-			c.checkHit("E", "e2e", tmplS, RenderNetrc(tmplEntries, layoutOneLine), cfg, entries, q, q, all[hi])
+			c.checkHit("E", "e2e", tmplS, RenderNetrc(tmplEntries, layoutOneLine), cfg, entries, q, q, all[hi], "")
 			envTok, netrcTok := cfg.Lookup(q), NLookup(entries, q)
 			switch {
 			case envTok != "" && netrcTok != "":
@@ -1002,7 +1016,9 @@ func run(r *evid.Run) {
 		"when the reference grammar accepts it, looked up for every request host of a fixed set (A: all 84 strings of <= 3 characters over {t,u,h,:}) plus hosts derived " +
 		"from the configured ones (extended, truncated, token text, whole string). C: every ordered selection of <= 4 of {machine r.io, machine xr.io, default, second machine r.io}, " +
 		"each entry with/without password, 3 layouts, via HOME or NETRC. D: S-sentences x netrc files x 3 hosts through the real interceptor + connectclient.Make with a recording HTTP client, " +
-		"clients made first and called in several orders. E: sentence templates x netrc files x 3 loopback registries through `buf registry whoami`. " +
+		"clients made first and called in several orders. F: every interleaving (explicit enumeration of all step orders, one logical thread running at a time) of 2 threads x 3..4 steps / 3 threads x 3 (quick) or 4 (thorough) steps, " +
+		"each thread = connectclient.Make for one of 3 hosts from ONE shared Config (parked inside the stub factory before the client is constructed, and after), then one request (parked inside the transport), " +
+		"over BUF_TOKEN sentences x netrc files x host multisets x 3 Config constructions (bufcli.NewConnectClientConfig, NewConnectClientConfigWithToken, NewConfig with a spare-capacity interceptor slice). E: sentence templates x netrc files x 3 loopback registries through `buf registry whoami`. " +
 		"A case is distinct/non-trivial when its configuration binds at least one token, or is malformed but contains a well-formed token@host part.")
 	r.Assume("hosts are compared as exact strings (the property's anchor says exact-match lookup); case-variants of host names are not requested")
 	r.Assume("a token of a token@host entry containing ':' and a host named twice are open zones: rejecting is accepted, as is accepting with exactly the written binding / the first entry winning")
@@ -1015,7 +1031,7 @@ func run(r *evid.Run) {
 		return
 	}
 	defer os.RemoveAll(scratch)
-	c := &checker{r: r, scratch: scratch, states: map[uint64]struct{}{}}
+	c := &checker{r: r, scratch: scratch, states: map[uint64]struct{}{}, fds: newFDGuard()}
 
 	charSyms := []string{"t", "u", "h", ":", "@", ","}
 	wordSyms := []string{"tok1", "tok2", H1, H2, ":", "@", ","}
@@ -1039,14 +1055,29 @@ func run(r *evid.Run) {
 	if !r.Quick() {
 		lenA, lenB, selfA, selfB, kS, kD, kE, netrcE = 9, 8, 8, 7, 4, 3, 3, 2
 	}
-	c.envSpace("A", charSyms, lenA, selfA, hostsA, "h")
-	c.envSpace("B", wordSyms, lenB, selfB, hostsB, "x")
-	c.structuredEnv(kS)
-	c.netrcSpace()
-	c.chainSpace(kD, !r.Quick())
-	c.e2eSpace(kE, netrcE)
+	// phase F runs first: it performs the most netrc lookups per second and the netrc library releases its
+	// file descriptors only through finalizers, which needs frequent collections, i.e. a small heap (see fdguard.go)
+	phaseWall := map[string]float64{}
+	timed := func(name string, f func()) {
+		t0 := time.Now()
+		f()
+		phaseWall[name] = float64(time.Since(t0).Milliseconds()) / 1000
+	}
+	timed("F", func() { c.interleavePhase(r.Quick()) })
+	timed("A", func() { c.envSpace("A", charSyms, lenA, selfA, hostsA, "h") })
+	timed("B", func() { c.envSpace("B", wordSyms, lenB, selfB, hostsB, "x") })
+	timed("S", func() { c.structuredEnv(kS) })
+	timed("C", func() { c.netrcSpace() })
+	timed("D", func() { c.chainSpace(kD, !r.Quick()) })
+	timed("E", func() { c.e2eSpace(kE, netrcE) })
+	if os.Getenv("C19_PHASE_WALL") != "" {
+		fmt.Fprintln(os.Stderr, "phase wall seconds:", phaseWall)
+	}
 
 	r.States.Store(int64(len(c.states)))
+	if os.Getenv("C19_FD_DEBUG") != "" {
+		fmt.Fprintln(os.Stderr, "fdguard: forced collections:", c.fds.forcedGC.Load())
+	}
 	r.Set("env_strings", c.envStrings.Load())
 	r.Set("env_model_none", c.envNone.Load())
 	r.Set("env_model_single_hostless", c.envSingle.Load())
@@ -1090,6 +1121,7 @@ func run(r *evid.Run) {
 		{"env no token for unconfigured host", c.lookNoLeak.Load()}, {"env token for configured host", c.lookTokenForHost.Load()},
 		{"netrc machine", c.nNamed.Load()}, {"netrc default", c.nDefault.Load()}, {"netrc machine without password", c.nNamedNoPassword.Load()},
 		{"chain env beats netrc", c.chEnvWins.Load()}, {"chain netrc fallback", c.chNetrcUsed.Load()}, {"chain no header", c.chNoLeakEnv.Load()},
+		{"interleaved Make calls of threads with different tokens", c.fOverlapDifferentTokens.Load()},
 		{"e2e rejected", c.e2eRejected.Load()}, {"e2e env beats netrc", c.e2eEnvWins.Load()}, {"e2e netrc fallback", c.e2eNetrc.Load()}, {"e2e no leak", c.e2eNoLeak.Load()},
 	} {
 		if cl.n == 0 {
